@@ -388,6 +388,34 @@ pub fn run_c05(ctx: &mut Ctx) {
         }
     }
 
+    // name -> number as seen on the wire, whatever named format the message carried before
+    {
+        let all = named_content_formats();
+        for (pi, (prev, _)) in all.iter().enumerate() {
+            for (ci, (cf, n)) in all.iter().enumerate() {
+                if level == 0 && (pi * 61 + ci) % 53 != 0 {
+                    continue;
+                }
+                rep.eval();
+                let res = guard(|| {
+                    let mut p = Packet::new();
+                    p.set_content_format(*prev);
+                    p.set_content_format(*cf);
+                    let wire = p.to_bytes().ok().and_then(|b| Packet::from_bytes(&b).ok());
+                    wire.and_then(|q| q.get_first_option(CoapOption::ContentFormat).cloned())
+                });
+                let want: Vec<u8> = {
+                    let b = (*n as u64).to_be_bytes();
+                    b.iter().copied().skip_while(|x| *x == 0).collect()
+                };
+                match res {
+                    Ok(Some(raw)) if raw == want => rep.count("content_format_name_to_wire_number"),
+                    other => rep.violation("content-format-name-to-wire-number", format!("{:?} set after {:?} goes on the wire as {:?}, registry number is {}", cf, prev, other.map_err(|p| p.text()), n), format!("{:?} after {:?}", cf, prev)),
+                }
+            }
+        }
+    }
+
     // ---- codes: all 256 bytes
     for b in 0..=255u8 {
         rep.eval();
